@@ -229,6 +229,23 @@ def buildPrecertTBSLax (bs : Bytes) (p : Option PreIssuer) : Option Bytes :=
       | none => some data
       | some p => if p.ctEku then some (marshalTbs (preIssuerEdit p t)) else none
 
+/-- the same two functions given the already parsed content (what the driver evaluates, parsing each input once) -/
+def removeExtLaxOf (oid : Bytes) (lt : Option Tbs) : Option Bytes := lt.bind (removeExtOf oid)
+
+def buildPrecertTBSLaxOf (lt : Option Tbs) (p : Option PreIssuer) : Option Bytes :=
+  match removeExtLaxOf poisonOid lt with
+  | none => none
+  | some data =>
+    match laxTbs data with
+    | none => none
+    | some t =>
+      match p with
+      | none => some data
+      | some p => if p.ctEku then some (marshalTbs (preIssuerEdit p t)) else none
+
+theorem removeExtLax_of (oid bs : Bytes) : removeExtLax oid bs = removeExtLaxOf oid (laxTbs bs) := rfl
+theorem buildPrecertTBSLax_of (bs : Bytes) (p : Option PreIssuer) : buildPrecertTBSLax bs p = buildPrecertTBSLaxOf (laxTbs bs) p := rfl
+
 /-- `MerkleTreeLeafFromChain` / `MerkleTreeLeafForEmbeddedSCT` on every accepted input (same wiring as the canonical versions) -/
 def leafFromPrecertChainLax (tbs : Bytes) (rest : List Bytes) (pre : Option PreIssuer) : Option (Bytes × Bytes) :=
   match rest with
